@@ -348,7 +348,7 @@ pub fn cli_case(seed: u64, idx: usize, acc: &mut Acc) {
 }
 
 pub fn run(ctx: &Ctx) -> i32 {
-    let n = ctx.size(40000, 1000000);
+    let n = ctx.size(40000, 5000000);
     let seed = ctx.seed;
     let acc = crate::par::run(n, 16, |i, acc| {
         let mut cl = Classes::default();
